@@ -177,6 +177,39 @@ def work(state, unit):
     return {"viol": {"clause": "tampered-log-accepted", "label": label, "log": log, "why": bad}, "outcome": "accepted-wrong"}
 
 
+def scan_rejected(ctx, block):
+    """Is the optimizer's candidate for this block rejected by the tool's own comparison?"""
+    from . import driver
+    r = driver.run_block(ctx, block)
+    return bool(r.get("candidate_changed") and r.get("eq") is False and not r.get("raised"))
+
+
+def rejected_input(cfgs):
+    """A contract whose run code contains blocks the comparison rejects under every given option set (their
+    solutions must not leak into the log), found by scanning a prefix tree with the real pipeline."""
+    from . import driver
+    cands = [[B.I("DUP1"), B.I("NOT"), B.I("NOT"), B.I("SWAP1"), B.I("POP")]] + list(B.tree(B.CORE, 3))[::3]
+    hits = {}
+
+    def on_s(cfg, blk, status, value):
+        if status == "ok" and value:
+            hits.setdefault(tuple(blk), set()).add(cfg)
+
+    pool.run_tasks([(cfg, ch) for cfg in cfgs for ch in pool.chunks(cands, 200)], scan_rejected,
+                   setup=driver.setup_ctx, unit_timeout=30, on_result=on_s)
+    common = [list(b) for b, cs in hits.items() if len(cs) == len(cfgs)]
+    common.sort(key=lambda b: (len(b), B.to_text(b)))
+    picked = common[:4]
+    if not picked:
+        return None, 0
+    ok1 = [B.P(5), B.P(0), B.I("ADD"), B.I("DUP1"), B.I("SWAP1"), B.I("POP")]
+    run = []
+    for b in picked:
+        run.append([i for i in b if i[0] not in E.TERMINAL] + [B.I("STOP")])
+        run.append(ok1 + [B.I("STOP")])
+    return docs.make_doc({"r.sol:R": docs.make_contract([picked[0] + [B.I("STOP")]], run)}), len(picked)
+
+
 def main(tier, seed, only=None):
     chk = report.Check("C11", "fault_enumeration", tier, seed)
     chk.cov["rule"] = ("inputs (3 synthesized multi-block contracts with stores, splits, pseudo pushes) x 3 (quick) / 5 (thorough) option sets incl. PUSH0 disabled; "
@@ -187,6 +220,10 @@ def main(tier, seed, only=None):
     ins = list(inputs())
     tot = {"identity": 0, "tampered": 0, "rejected": 0, "accepted_eq": 0, "budget": 0, "entries": 0}
     cfgs = CFGS[:3] if tier == "quick" else CFGS
+    rdoc, nrej = rejected_input(cfgs)
+    chk.cov["blocks_rejected_by_comparison_in_input_rej"] = nrej
+    if rdoc is not None:
+        ins.append(("rej", rdoc))
     # phase 1: baselines + identity (collect logs in the parent)
     logs = {}
 
